@@ -264,10 +264,74 @@ def signal_worker(k):
                         out["mixed_inf"] = {"accepted": True, "max_refined": None}
                 except Exception as e5x:
                     out["mixed_inf"] = {"accepted": False, "error": str(e5x)[:120]}
+                # the grid's min bound with a free horizon: a decision vector whose intervals are too short must violate a row
+                o6, ys6, w6 = chain()
+                o6.set_T(rockit.FreeTime(1.0))
+                o6.method(rockit.SplineMethod(N=N, grid=rockit.UniformGrid(min=0.5)))
+                o6.solver("ipopt", {"ipopt.print_level": 0, "print_time": False})
+                Tv = o6.value(o6.T)
+                op6 = o6._method.opti
+                f6 = ca.Function("f6", [op6.x], [Tv, ca.jacobian(Tv, op6.x), op6.g, op6.lbg, op6.ubg])
+                x6 = np.zeros(op6.x.numel())
+                jt = np.array(f6(x6)[1]).reshape(-1)
+                x6[int(np.argmax(np.abs(jt)))] = 0.25 * N / float(jt[int(np.argmax(np.abs(jt)))])      # T = N/4: intervals of 1/4 < 1/2
+                T6, _, g6, lb6, ub6 = [np.array(v).reshape(-1) for v in f6(x6)]
+                out["grid_min"] = {"T": float(T6[0]), "N": N,
+                                   "violated": bool(any(h > 1e-9 for s_, i_, q_, h in _nlp.normal_rows(g6, lb6, ub6) if s_ == 1))}
+                # ocp.integral under SplineMethod: refused, or it contributes to the objective
+                o7, ys7, w7 = chain()
+                o7.add_objective(o7.integral(ys7[0] ** 2 + 1))
+                o7.method(rockit.SplineMethod(N=N))
+                o7.solver("ipopt", {"ipopt.print_level": 0, "print_time": False})
+                try:
+                    o7.sample(ys7[0], grid="control")
+                    op7 = o7._method.opti
+                    x7 = np.round(np.random.RandomState(k["N"] * 17 + k["d"]).uniform(-2, 2, op7.x.numel()) * 8) / 8
+                    tf7 = o7.sample(ys7[0], grid="control")[1][-1]
+                    fv, xf = [float(v) for v in ca.Function("f7", [op7.x], [op7.f, tf7])(x7)]
+                    out["integral"] = {"accepted": True, "objective": fv, "mayer_part": xf ** 2, "T": T}
+                except Exception as e7x:
+                    out["integral"] = {"accepted": False, "error": str(e7x)[:100]}
+                # several path constraints, some with next/prev, one with include_first=False: each at its own grid points
+                o9, ys9, w9 = chain()
+                o9.subject_to(ys9[1] <= 1)
+                o9.subject_to(o9.next(ys9[0]) - ys9[0] <= 3)
+                o9.subject_to(ys9[0] - o9.prev(ys9[0]) <= 2, include_first=False)
+                o9.method(rockit.SplineMethod(N=N))
+                o9.solver("ipopt", {"ipopt.print_level": 0, "print_time": False})
+                _, p9 = o9.sample(ys9[0], grid="control")
+                _, v9 = o9.sample(ys9[1], grid="control")
+                op9 = o9._method.opti
+                f9 = ca.Function("f9", [op9.x], [ca.vec(p9), ca.vec(v9), op9.g, op9.lbg, op9.ubg])
+                x9 = np.round(np.random.RandomState(k["N"] * 19 + k["d"]).uniform(-2, 2, op9.x.numel()) * 8) / 8
+                pv, vv9, g9, lb9, ub9 = [np.array(v).reshape(-1) for v in f9(x9)]
+                out["stacked"] = {"p": pv.tolist(), "v": vv9.tolist(),
+                                  "ineq_rows": sorted(float(h) for s_, i_, q_, h in _nlp.normal_rows(g9, lb9, ub9) if s_ == 1)}
+                # 'control-' has N points; an offset of time is the shifted time (or is refused)
+                o8, ys8, w8 = chain()
+                o8.method(rockit.SplineMethod(N=N))
+                o8.solver("ipopt", {"ipopt.print_level": 0, "print_time": False})
+                tcm, vcm = o8.sample(ys8[0], grid="control-")
+                out["control_minus"] = [int(tcm.numel()), int(vcm.shape[1]), N]
+                try:
+                    _, dtn = o8.sample(o8.next(o8.t) - o8.t, grid="control")
+                    op8 = o8._method.opti
+                    out["next_t"] = {"accepted": True, "values": np.array(ca.Function("f8", [op8.x], [dtn])(np.zeros(op8.x.numel()))).reshape(-1).tolist(), "dt": T / N}
+                except Exception as e8x:
+                    out["next_t"] = {"accepted": False, "error": str(e8x)[:100]}
     except Exception as e:
         out["error"] = "%s: %s" % (type(e).__name__, str(e)[:300])
         out["trace"] = traceback.format_exc()[-1500:]
     return out
+
+
+def judge_integral(k, r):
+    """SplineMethod and ocp.integral (judged on its own: a recorded finding must not hide the other checks of the case)"""
+    it = r.get("integral")
+    if it and it.get("accepted") and not it["objective"] > it["mayer_part"] + 0.5 * it["T"]:
+        return [{"what": "SplineMethod: ocp.integral(x**2 + 1) was accepted but does not contribute (at least T) to the objective",
+                 "objective": it["objective"], "mayer_term": it["mayer_part"], "T": it["T"]}]
+    return []
 
 
 def judge_signal(k, r):
@@ -358,6 +422,26 @@ def judge_signal(k, r):
     if mi and mi.get("accepted") and mi.get("max_refined") is not None and mi["max_refined"] > mi["bound"] * (1 + 1e-9):
         return [{"what": "SplineMethod: grid='inf' constraint on a sum of splines of different degree: all generated rows hold "
                          "(tightest with equality) yet the refined sample exceeds the bound", "max_refined": mi["max_refined"], "bound": mi["bound"]}]
+    gm = r.get("grid_min")
+    if gm and not gm["violated"]:
+        return [{"what": "SplineMethod: UniformGrid(min=0.5) with a free horizon: a decision vector with T = N/4 (control intervals of "
+                         "1/4) violates no NLP constraint", "T": gm["T"], "N": gm["N"]}]
+    st = r.get("stacked")
+    if st:
+        pp, vv = st["p"], st["v"]
+        exp = sorted([v_ - 1.0 for v_ in vv] + [pp[i + 1] - pp[i] - 3.0 for i in range(len(pp) - 1)]
+                     + [pp[i] - pp[i - 1] - 2.0 for i in range(1, len(pp))])
+        got = st["ineq_rows"]
+        if len(exp) != len(got) or not all(engine.close(a, b, scale=abs(b)) for a, b in zip(got, exp)):
+            return [{"what": "SplineMethod: path constraints v<=1, next(p)-p<=3, p-prev(p)<=2 (include_first=False) are not imposed at "
+                             "N+1, N and N grid points respectively", "n_rows_rockit": len(got), "n_rows_expected": len(exp),
+                     "rockit": got[:12], "expected": exp[:12]}]
+    cm = r.get("control_minus")
+    if cm and not (cm[0] == cm[2] and cm[1] == cm[2]):
+        return [{"what": "SplineMethod: sample(x, grid='control-') does not return N time points and N values", "times_values_N": cm}]
+    nt = r.get("next_t")
+    if nt and nt.get("accepted") and not all((v != v) or engine.close(v, nt["dt"]) for v in nt["values"]):
+        return [{"what": "SplineMethod: sample(next(t) - t, grid='control') is not the interval length", "rockit": nt["values"], "dt": nt["dt"]}]
     # the control is the L-th derivative in physical time: chain dynamics hold identically
     co = list(cg)
     for q in range(dd):
@@ -406,13 +490,21 @@ def probe_worker(cfg):
                 ocp.set_value(pc, ca.DM(cfg["pc"]).T)
             if cfg.get("g") is not None:
                 ocp.set_value(gg, cfg["g"])
-            ocp.method(rockit.MultipleShooting(N=N, intg="expl_euler"))
+            if cfg.get("method") == "DC":
+                ocp.method(rockit.DirectCollocation(N=N, M=1, degree=1, scheme="legendre"))
+            else:
+                ocp.method(rockit.MultipleShooting(N=N, intg="expl_euler"))
             ocp.solver("ipopt", {"ipopt.print_level": 0, "print_time": False})
             ocp.sample(x, grid="control")
+            # the parameter itself on the refined integrator grid (the system-function parameter vector is assembled
+            # a second time there)
+            _, pref = ocp.sample(p, grid="integrator", refine=2)
             opti = ocp._method.opti
-            f = ca.Function("g", [opti.x, opti.p], [opti.g])
-            g = np.array(f(np.zeros(opti.x.numel()), opti.debug.value(opti.p, opti.initial()))).reshape(-1)
+            f = ca.Function("g", [opti.x, opti.p], [opti.g, pref])
+            g, pr = f(np.zeros(opti.x.numel()), opti.debug.value(opti.p, opti.initial()))
+            g = np.array(g).reshape(-1)
             out["g"] = sorted(float(v_) for v_ in g)
+            out["p_refined"] = np.array(pr).reshape(-1).tolist()
     except Exception as e:
         out["error"] = "%s: %s" % (type(e).__name__, str(e)[:300])
     return out
@@ -429,6 +521,7 @@ def probe_cases(rng, n):
             cfg["pc"] = [float(dyadic(rng, 1, 3, 2)) for _ in range(N)]
         if rng.random() < 0.4:
             cfg["g"] = float(dyadic(rng, 1, 3, 2))
+        cfg["method"] = rng.choice(["MS", "DC"])
         out.append(cfg)
     return out
 
@@ -441,10 +534,20 @@ def judge_probe(cfg, r):
     knots = [xi[0]] * d + xi + [xi[-1]] * d
     pcv = cfg.get("pc") or [0.0] * N
     gv = cfg.get("g") or 0.0
-    exp = sorted([-(1.0 / N) * (cdb_value(knots, d, c, xi[k]) + 1000 * pcv[k] + 10000 * gv) for k in range(N)] + [0.0])
+    if cfg.get("method") == "DC":
+        # degree 1, legendre: one collocation point at the interval midpoint; collocation rows  slope - rhs,  continuity rows 0
+        exp = sorted([-(cdb_value(knots, d, c, 0.5 * (xi[k] + xi[k + 1])) + 1000 * pcv[k] + 10000 * gv) for k in range(N)] + [0.0] * (N + 1))
+    else:
+        exp = sorted([-(1.0 / N) * (cdb_value(knots, d, c, xi[k]) + 1000 * pcv[k] + 10000 * gv) for k in range(N)] + [0.0])
     if len(exp) != len(r["g"]) or not all(engine.close(a, b, rtol=1e-8) for a, b in zip(r["g"], exp)):
-        return [{"what": "a grid='bspline' parameter inside the dynamics does not enter the gap-closing constraints with "
-                         "its own value at the interval start", "residuals": r["g"], "expected": exp}]
+        return [{"what": "a grid='bspline' parameter inside the dynamics does not enter the gap-closing / collocation constraints with "
+                         "its own value at the interval start / collocation time", "residuals": r["g"], "expected": exp}]
+    tref = [k / N + q / (2.0 * N) for k in range(N) for q in range(2)] + [1.0]
+    pexp = [cdb_value(knots, d, c, t) for t in tref]
+    if len(pexp) != len(r["p_refined"]) or not all(engine.close(a, b, rtol=1e-8) for a, b in zip(r["p_refined"], pexp)):
+        return [{"what": "sample(p, grid='integrator', refine=2) of a grid='bspline' parameter is not the spline at the refined times "
+                         "(other symbols of the stage: %s)" % ", ".join(k_ for k_ in ("with_var", "with_bsvar", "pc", "g") if cfg.get(k_)),
+                 "rockit": r["p_refined"], "expected": pexp}]
     return []
 
 
@@ -468,6 +571,10 @@ def run(tier="quick", seed=0, jobs=16):
     with mp.get_context("fork").Pool(min(jobs, len(sig))) as pool:
         rs = pool.map(signal_worker, sig, chunksize=1)
     for k, r in zip(sig, rs):
+        di = judge_integral(k, r)
+        if di:
+            dis.append({"property": "C17", "what": di, "case": dict(k, _signal=True, _integral=True), "points": [],
+                        "finding_key": "F33-splinemethod-integral-zero"})
         d = judge_signal(k, r)
         if d:
             dis.append({"property": "C17", "what": d, "case": dict(k, _signal=True), "points": [], "finding_key": None})
@@ -499,7 +606,8 @@ def replay(path):
     if k.pop("_probe", False):
         r = probe_worker(k); dd = judge_probe(k, r)
     elif k.pop("_signal", False):
-        r = signal_worker(k); dd = judge_signal(k, r)
+        only_integral = k.pop("_integral", False)
+        r = signal_worker(k); dd = judge_integral(k, r) if only_integral else judge_signal(k, r)
     else:
         r = kernel_worker(k); dd = judge_kernel(k, r, model_kernels([k])[0])
     print(json.dumps(dd, indent=1, default=str)[:3000] if dd else "replay: agrees")
